@@ -11,19 +11,18 @@
     [SEC_MIN, SEC_MAX] = [-8334601228800, 8210266876799] and [NS_MIN, NS_MAX] are the first and last
     instants of the years -262143 ..= 262142, computed from the specification.
 
-    RELATIVE TO C01.  Every theorem named [*_modulo_date] has the hypothesis [date_facts], the
-    conjunction of three statements about Model/Date.v that belong to property C01 (Proofs/Date.v):
-      C01_from_days : from_num_days_from_ce_opt n = Some d with valid_date d and day number n
-                      exactly when DN_MIN <= n <= DN_MAX (for every i32 n), None otherwise;
-      C01_num_days  : num_days_from_ce d = the specification's day number of d, within
-                      [DN_MIN, DN_MAX], for every valid d;
-      C01_days_back : from_num_days_from_ce_opt (day number of d) = Some d for every valid d.
-    They are hypotheses of a Section, not axioms: Print Assumptions stays closed, and the theorems
-    become unconditional by applying them to the C01 proofs. *)
-From Coq Require Import ZArith List Bool.
+    CALENDAR FACTS.  Proofs/C02.v and Proofs/C02Holds.v prove every theorem inside a Section whose
+    hypotheses are four statements about Model/Date.v that belong to property C01
+    ([date_facts] = C01_from_days /\ C01_num_days /\ C01_days_back, and [C01_fields]); Proofs/C02Date.v
+    discharges them from the shared calendar library (Proofs/Date.v: from_num_days_from_ce_opt_spec,
+    num_days_from_ce_spec, date_of_dn_repr, from_num_days_from_ce_opt_dn, repr_dn_in_range; C08Date:
+    from_yo_opt_spec, repr_acc), see [C02_calendar_facts_discharged].  All theorems below are therefore
+    unconditional. *)
+From Coq Require Import String ZArith List Bool.
 From V Require Import Base.Int Base.IO Spec.Gregorian Gen.DateTimeConsts Gen.TsConsts Gen.TimeDelta.
 From V Require Model.Date Model.Time.
-From V Require Import Model.DateTime Model.C02 Proofs.C02.
+From V Require Judge.C02.
+From V Require Import Model.DateTime Model.C02 Proofs.C02 Proofs.C02Holds Proofs.C02Date.
 Import ListNotations.
 Open Scope Z_scope.
 
@@ -41,140 +40,162 @@ Theorem C02_source_literals :
 Proof. exact ts_literals. Qed.
 Print Assumptions C02_source_literals.
 
+(** the calendar facts the proofs rest on hold (discharged from Proofs/Date.v) *)
+Theorem C02_calendar_facts_discharged : date_facts /\ C01_fields.
+Proof. exact calendar_facts. Qed.
+Print Assumptions C02_calendar_facts_discharged.
+
 (** * Construction: for ALL secs : i64 and nsecs : u32 *)
 (* never panics; Some(the date-time that far from the epoch) or None, None exactly when the count is
    outside the range or the nanosecond field is invalid (>= 10^9 unless < 2*10^9 on a second = 59 mod 60) *)
-Theorem C02_from_timestamp_spec_modulo_date : date_facts ->
+Theorem C02_from_timestamp_spec :
   forall secs nsecs, in_i64 secs = true -> in_u32 nsecs = true ->
   exists r, dt_from_timestamp secs nsecs = Val r /\
     match r with
     | Some a => valid_ndt a /\ secs_of a = secs /\ dfrac a = nsecs /\ (nsecs < G \/ (nsecs < 2 * G /\ secs mod 60 = 59))
     | None => ~ (SEC_MIN <= secs <= SEC_MAX /\ (nsecs < G \/ (nsecs < 2 * G /\ secs mod 60 = 59)))
     end.
-Proof. exact from_timestamp_spec. Qed.
-Print Assumptions C02_from_timestamp_spec_modulo_date.
+Proof. exact u_from_timestamp_spec. Qed.
+Print Assumptions C02_from_timestamp_spec.
 
 (* milliseconds / microseconds: for ALL i64; the result is the non-leap date-time whose instant is
    exactly the count (hence the fields floor toward negative infinity); None exactly out of range *)
-Theorem C02_from_timestamp_millis_spec_modulo_date : date_facts ->
+Theorem C02_from_timestamp_millis_spec :
   forall ms, in_i64 ms = true ->
   exists r, dt_from_timestamp_millis ms = Val r /\
     match r with
     | Some a => valid_ndt a /\ nonleap a /\ instant a = ms * 1000000
     | None => ~ (NS_MIN <= ms * 1000000 <= NS_MAX)
     end.
-Proof. exact from_timestamp_millis_spec. Qed.
-Print Assumptions C02_from_timestamp_millis_spec_modulo_date.
-Theorem C02_from_timestamp_micros_spec_modulo_date : date_facts ->
+Proof. exact u_from_timestamp_millis_spec. Qed.
+Print Assumptions C02_from_timestamp_millis_spec.
+Theorem C02_from_timestamp_micros_spec :
   forall us, in_i64 us = true ->
   exists r, dt_from_timestamp_micros us = Val r /\
     match r with
     | Some a => valid_ndt a /\ nonleap a /\ instant a = us * 1000
     | None => ~ (NS_MIN <= us * 1000 <= NS_MAX)
     end.
-Proof. exact from_timestamp_micros_spec. Qed.
-Print Assumptions C02_from_timestamp_micros_spec_modulo_date.
+Proof. exact u_from_timestamp_micros_spec. Qed.
+Print Assumptions C02_from_timestamp_micros_spec.
 (* nanoseconds: total on i64 — the [expect] never fires *)
-Theorem C02_from_timestamp_nanos_total_modulo_date : date_facts ->
+Theorem C02_from_timestamp_nanos_total :
   forall ns, in_i64 ns = true ->
   exists a, dt_from_timestamp_nanos ns = Val a /\ valid_ndt a /\ nonleap a /\ instant a = ns.
-Proof. exact from_timestamp_nanos_spec. Qed.
-Print Assumptions C02_from_timestamp_nanos_total_modulo_date.
+Proof. exact u_from_timestamp_nanos_spec. Qed.
+Print Assumptions C02_from_timestamp_nanos_total.
 
 (** * Accessors on every valid date-time *)
-Theorem C02_timestamp_modulo_date : date_facts ->
+Theorem C02_timestamp :
   forall a, valid_ndt a -> dt_timestamp a = Val (secs_of a).
-Proof. exact timestamp_spec. Qed.
-Print Assumptions C02_timestamp_modulo_date.
+Proof. exact u_timestamp_spec. Qed.
+Print Assumptions C02_timestamp.
 (* no i64 overflow in timestamp_millis / timestamp_micros anywhere in the range (leap-second values included) *)
-Theorem C02_timestamp_millis_no_overflow_modulo_date : date_facts ->
+Theorem C02_timestamp_millis_no_overflow :
   forall a, valid_ndt a -> dt_timestamp_millis a = Val (secs_of a * 1000 + dfrac a / 1000000).
-Proof. exact timestamp_millis_val. Qed.
-Print Assumptions C02_timestamp_millis_no_overflow_modulo_date.
-Theorem C02_timestamp_micros_no_overflow_modulo_date : date_facts ->
+Proof. exact u_timestamp_millis_val. Qed.
+Print Assumptions C02_timestamp_millis_no_overflow.
+Theorem C02_timestamp_micros_no_overflow :
   forall a, valid_ndt a -> dt_timestamp_micros a = Val (secs_of a * 1000000 + dfrac a / 1000).
-Proof. exact timestamp_micros_val. Qed.
-Print Assumptions C02_timestamp_micros_no_overflow_modulo_date.
+Proof. exact u_timestamp_micros_val. Qed.
+Print Assumptions C02_timestamp_micros_no_overflow.
 (* non-leap values: floor of the instant in each unit *)
-Theorem C02_timestamp_floor_modulo_date : date_facts ->
+Theorem C02_timestamp_floor :
   forall a, valid_ndt a -> nonleap a -> dt_timestamp a = Val (instant a / G).
-Proof. exact timestamp_floor. Qed.
-Print Assumptions C02_timestamp_floor_modulo_date.
-Theorem C02_timestamp_millis_floor_modulo_date : date_facts ->
+Proof. exact u_timestamp_floor. Qed.
+Print Assumptions C02_timestamp_floor.
+Theorem C02_timestamp_millis_floor :
   forall a, valid_ndt a -> nonleap a -> dt_timestamp_millis a = Val (instant a / 1000000).
-Proof. exact timestamp_millis_floor. Qed.
-Print Assumptions C02_timestamp_millis_floor_modulo_date.
-Theorem C02_timestamp_micros_floor_modulo_date : date_facts ->
+Proof. exact u_timestamp_millis_floor. Qed.
+Print Assumptions C02_timestamp_millis_floor.
+Theorem C02_timestamp_micros_floor :
   forall a, valid_ndt a -> nonleap a -> dt_timestamp_micros a = Val (instant a / 1000).
-Proof. exact timestamp_micros_floor. Qed.
-Print Assumptions C02_timestamp_micros_floor_modulo_date.
+Proof. exact u_timestamp_micros_floor. Qed.
+Print Assumptions C02_timestamp_micros_floor.
 Theorem C02_timestamp_subsec : forall a, valid_ndt a ->
   dt_subsec_nanos a = dfrac a /\ dt_subsec_micros a = dfrac a / 1000 /\ dt_subsec_millis a = dfrac a / 1000000.
 Proof. exact subsec_spec. Qed.
 Print Assumptions C02_timestamp_subsec.
 (* nanosecond accessor: the exact count, None exactly when it does not fit i64; never panics (the
    re-association of the negative branch is covered: the statement is over all valid non-leap values) *)
-Theorem C02_timestamp_nanos_opt_spec_modulo_date : date_facts ->
+Theorem C02_timestamp_nanos_opt_spec :
   forall a, valid_ndt a -> nonleap a ->
   dt_timestamp_nanos_opt a = Val (if in_i64 (instant a) then Some (instant a) else None).
-Proof. exact timestamp_nanos_opt_spec. Qed.
-Print Assumptions C02_timestamp_nanos_opt_spec_modulo_date.
-Theorem C02_timestamp_nanos_spec_modulo_date : date_facts ->
+Proof. exact u_timestamp_nanos_opt_spec. Qed.
+Print Assumptions C02_timestamp_nanos_opt_spec.
+(* the same on the leap-second values from_timestamp can produce (second 59), reading the count as
+   timestamp * 10^9 + subsec_nanos like timestamp_millis / _micros do *)
+Theorem C02_timestamp_nanos_opt_leap59 :
+  forall a, valid_ndt a -> dsecs a mod 60 = 59 ->
+  dt_timestamp_nanos_opt a = Val (if in_i64 (instant a) then Some (instant a) else None).
+Proof. exact u_timestamp_nanos_opt_leap59. Qed.
+Print Assumptions C02_timestamp_nanos_opt_leap59.
+(* observation (outside the property's domain): a leap-second fraction on a second other than 59 --
+   reachable through with_second/with_nanosecond only -- just below the i64 window reports None although
+   timestamp * 10^9 + subsec_nanos fits: 1677-09-21T00:12:42 + 1_999_999_999 ns *)
+Theorem C02_timestamp_nanos_opt_leap_gap_observation :
+  let a := mk_ndt 13742219 (Time.mk_time 762 1999999999) in
+  Date.from_yo_opt 1677 264 = Val (Some 13742219) /\ dt_timestamp a = Val (-9223372038) /\
+  in_i64 (-9223372038 * G + 1999999999) = true /\ dt_timestamp_nanos_opt a = Val None /\
+  dt_timestamp_micros a = Val (-9223372036000001).
+Proof. exact nanos_opt_leap_gap. Qed.
+Print Assumptions C02_timestamp_nanos_opt_leap_gap_observation.
+Theorem C02_timestamp_nanos_spec :
   forall a, valid_ndt a -> nonleap a ->
   dt_timestamp_nanos a = if in_i64 (instant a) then Val (instant a) else Panic.
-Proof. exact timestamp_nanos_spec. Qed.
-Print Assumptions C02_timestamp_nanos_spec_modulo_date.
+Proof. exact u_timestamp_nanos_spec. Qed.
+Print Assumptions C02_timestamp_nanos_spec.
 
 (** * Round trips, both directions, all four units *)
 (* count -> date-time -> count *)
-Theorem C02_roundtrip_secs_modulo_date : date_facts ->
+Theorem C02_roundtrip_secs :
   forall secs nsecs a, in_i64 secs = true -> in_u32 nsecs = true ->
   dt_from_timestamp secs nsecs = Val (Some a) ->
   dt_timestamp a = Val secs /\ dt_subsec_nanos a = nsecs.
-Proof. exact roundtrip_secs. Qed.
-Print Assumptions C02_roundtrip_secs_modulo_date.
-Theorem C02_roundtrip_millis_modulo_date : date_facts ->
+Proof. exact u_roundtrip_secs. Qed.
+Print Assumptions C02_roundtrip_secs.
+Theorem C02_roundtrip_millis :
   forall ms a, in_i64 ms = true -> dt_from_timestamp_millis ms = Val (Some a) -> dt_timestamp_millis a = Val ms.
-Proof. exact roundtrip_millis. Qed.
-Print Assumptions C02_roundtrip_millis_modulo_date.
-Theorem C02_roundtrip_micros_modulo_date : date_facts ->
+Proof. exact u_roundtrip_millis. Qed.
+Print Assumptions C02_roundtrip_millis.
+Theorem C02_roundtrip_micros :
   forall us a, in_i64 us = true -> dt_from_timestamp_micros us = Val (Some a) -> dt_timestamp_micros a = Val us.
-Proof. exact roundtrip_micros. Qed.
-Print Assumptions C02_roundtrip_micros_modulo_date.
-Theorem C02_roundtrip_nanos_modulo_date : date_facts ->
+Proof. exact u_roundtrip_micros. Qed.
+Print Assumptions C02_roundtrip_micros.
+Theorem C02_roundtrip_nanos :
   forall ns, in_i64 ns = true ->
   exists a, dt_from_timestamp_nanos ns = Val a /\ dt_timestamp_nanos_opt a = Val (Some ns).
-Proof. exact roundtrip_nanos. Qed.
-Print Assumptions C02_roundtrip_nanos_modulo_date.
+Proof. exact u_roundtrip_nanos. Qed.
+Print Assumptions C02_roundtrip_nanos.
 (* date-time -> count -> date-time: seconds + nanosecond field give back the value itself (also for a
    leap-second value on a second 59); milliseconds / microseconds give back the value truncated to the unit *)
-Theorem C02_back_secs_modulo_date : date_facts ->
+Theorem C02_back_secs :
   forall a, valid_ndt a -> (nonleap a \/ dsecs a mod 60 = 59) ->
   exists s, dt_timestamp a = Val s /\ dt_from_timestamp s (dt_subsec_nanos a) = Val (Some a).
-Proof. exact back_secs. Qed.
-Print Assumptions C02_back_secs_modulo_date.
-Theorem C02_back_millis_modulo_date : date_facts ->
+Proof. exact u_back_secs. Qed.
+Print Assumptions C02_back_secs.
+Theorem C02_back_millis :
   forall a, valid_ndt a -> nonleap a ->
   exists ms, dt_timestamp_millis a = Val ms /\
     dt_from_timestamp_millis ms = Val (Some (with_frac a (dfrac a - dfrac a mod 1000000))).
-Proof. exact back_millis. Qed.
-Print Assumptions C02_back_millis_modulo_date.
-Theorem C02_back_micros_modulo_date : date_facts ->
+Proof. exact u_back_millis. Qed.
+Print Assumptions C02_back_millis.
+Theorem C02_back_micros :
   forall a, valid_ndt a -> nonleap a ->
   exists us, dt_timestamp_micros a = Val us /\
     dt_from_timestamp_micros us = Val (Some (with_frac a (dfrac a - dfrac a mod 1000))).
-Proof. exact back_micros. Qed.
-Print Assumptions C02_back_micros_modulo_date.
-Theorem C02_back_nanos_modulo_date : date_facts ->
+Proof. exact u_back_micros. Qed.
+Print Assumptions C02_back_micros.
+Theorem C02_back_nanos :
   forall a ns, valid_ndt a -> nonleap a ->
   dt_timestamp_nanos_opt a = Val (Some ns) -> dt_from_timestamp_nanos ns = Val a.
-Proof. exact back_nanos. Qed.
-Print Assumptions C02_back_nanos_modulo_date.
+Proof. exact u_back_nanos. Qed.
+Print Assumptions C02_back_nanos.
 (* one-to-one: distinct valid non-leap date-times have distinct instants *)
-Theorem C02_instant_injective_modulo_date : date_facts ->
+Theorem C02_instant_injective :
   forall a b, valid_ndt a -> valid_ndt b -> nonleap a -> nonleap b -> instant a = instant b -> a = b.
-Proof. exact instant_inj. Qed.
-Print Assumptions C02_instant_injective_modulo_date.
+Proof. exact u_instant_inj. Qed.
+Print Assumptions C02_instant_injective.
 
 (** * Zone-generic and NaiveDateTime wrappers: the same function up to attaching the offset *)
 Theorem C02_tz_timestamp_opt : forall off secs nsecs,
@@ -212,7 +233,7 @@ Theorem C02_naive_from_timestamp_micros : forall us, naive_from_timestamp_micros
 Proof. exact naive_micros_eq. Qed.
 Print Assumptions C02_naive_from_timestamp_micros.
 (* the Option-returning nanosecond wrapper agrees with the total one unless [from_timestamp] refuses,
-   which C02_from_timestamp_nanos_total_modulo_date excludes for every i64 *)
+   which C02_from_timestamp_nanos_total excludes for every i64 *)
 Theorem C02_naive_from_timestamp_nanos : forall ns,
   naive_from_timestamp_nanos ns = rmap Some (dt_from_timestamp_nanos ns) \/
   (exists s n, dt_from_timestamp s n = Val None /\ naive_from_timestamp_nanos ns = Val None /\ dt_from_timestamp_nanos ns = Panic).
@@ -223,28 +244,54 @@ Print Assumptions C02_naive_from_timestamp_nanos.
       representation is modelled, not verified) *)
 (* From<SystemTime>: for the triple (before_epoch?, secs, nanos) that duration_since(UNIX_EPOCH) reports,
    the result is the UTC date-time with exactly that instant; a panic exactly when no such date-time exists *)
-Theorem C02_from_systime_partial_modulo_date : date_facts ->
+Theorem C02_from_systime_partial :
   forall before ds dn, 0 <= ds <= i64_max -> 0 <= dn < G ->
   let t := sys_ns before ds dn in
   (NS_MIN <= t <= NS_MAX ->
      exists a, dt_from_systime before ds dn = Val (mk_dtz a 0) /\ valid_ndt a /\ nonleap a /\ instant a = t) /\
   (~ (NS_MIN <= t <= NS_MAX) -> dt_from_systime before ds dn = Panic).
-Proof. exact from_systime_spec. Qed.
-Print Assumptions C02_from_systime_partial_modulo_date.
+Proof. exact u_from_systime_spec. Qed.
+Print Assumptions C02_from_systime_partial.
 (* From<DateTime<Tz>>: never panics, the timespec (s, n) is normalised and s*10^9 + n is the instant,
    whatever the offset *)
-Theorem C02_systime_from_dt_partial_modulo_date : date_facts ->
+Theorem C02_systime_from_dt_partial :
   forall z, valid_ndt (dz_utc z) ->
   exists s n, systime_from_dt z = Val (s, n) /\ 0 <= n < G /\ s * G + n = instant (dz_utc z).
-Proof. exact systime_from_dt_spec. Qed.
-Print Assumptions C02_systime_from_dt_partial_modulo_date.
+Proof. exact u_systime_from_dt_spec. Qed.
+Print Assumptions C02_systime_from_dt_partial.
 Theorem C02_duration_since_epoch : forall s n, 0 <= n < G ->
   let '(b, ds, dn) := st_since_epoch (s, n) in
   0 <= ds /\ 0 <= dn < G /\ sys_ns b ds dn = s * G + n /\ (b = true -> 0 < ds * G + dn).
 Proof. exact st_since_epoch_spec. Qed.
 Print Assumptions C02_duration_since_epoch.
 
-(** * The hypotheses are inhabited by a non-trivial value, independently of the C01 facts *)
+(** * The executable property (Judge/C02.v, the oracle applied to the implementation's outputs)
+      accepts the model's output on every in-domain case of the constructor and accessor operations.
+      (closing the loop implementation ~ model |= judge on these operations) *)
+Theorem C02_holds_from :
+  forall secs nsecs, in_i64 secs = true -> in_u32 nsecs = true ->
+  Judge.C02.judge B"ts.from" [VInt secs; VInt nsecs] (run B"ts.from" [VInt secs; VInt nsecs]) = JOk.
+Proof. exact u_holds_from. Qed.
+Print Assumptions C02_holds_from.
+Theorem C02_holds_fromms :
+  forall x, in_i64 x = true -> Judge.C02.judge B"ts.fromms" [VInt x] (run B"ts.fromms" [VInt x]) = JOk.
+Proof. exact u_holds_fromms. Qed.
+Print Assumptions C02_holds_fromms.
+Theorem C02_holds_fromus :
+  forall x, in_i64 x = true -> Judge.C02.judge B"ts.fromus" [VInt x] (run B"ts.fromus" [VInt x]) = JOk.
+Proof. exact u_holds_fromus. Qed.
+Print Assumptions C02_holds_fromus.
+Theorem C02_holds_fromns :
+  forall x, in_i64 x = true -> Judge.C02.judge B"ts.fromns" [VInt x] (run B"ts.fromns" [VInt x]) = JOk.
+Proof. exact u_holds_fromns. Qed.
+Print Assumptions C02_holds_fromns.
+Theorem C02_holds_of :
+  forall a, valid_ndt a -> nonleap a ->
+  Judge.C02.judge B"ts.of" [enc_ndt a] (run B"ts.of" [enc_ndt a]) = JOk.
+Proof. exact u_holds_of. Qed.
+Print Assumptions C02_holds_of.
+
+(** * The hypotheses are inhabited by a non-trivial value (computed, independent of the calendar library) *)
 Example C02_example_2015 : exists a, dt_from_timestamp 1431648000 0 = Val (Some a) /\
   valid_ndt a /\ nonleap a /\ instant a = 1431648000 * G /\ dt_timestamp_nanos_opt a = Val (Some (1431648000 * G)).
 Proof. exact example_valid. Qed.
